@@ -460,6 +460,12 @@ class Problem:
     def cons(self):
         if self.cons_spec["kind"] == "none":
             return None
+        fr = self.spec.get("cons_frame")
+        if fr is not None:
+            # the region is defined in the coordinates of ANOTHER problem (same x-space region shared by several problems)
+            fl, fu, fpl, fpu = (arr(fr[k]) for k in ("lb", "ub", "plb", "pub"))
+            flog = is_log_coord(fl, fu, fpl, fpu)
+            return lambda X: eval_cons(self.cons_spec, X, fpl, fpu, flog)
         return lambda X: eval_cons(self.cons_spec, X, self.plb, self.pub, self.logm)
 
     def bads_args(self, spelling="2d"):
